@@ -71,8 +71,19 @@ func (ex *Exec) callValue(fr *Frame, fnv Val, args []Val, site ssa.Instruction, 
 			return
 		}
 	}
-	vc.note("dynamic call of an unknown function value at %s: havoc", ex.where())
-	ex.havocCall(fr, nil, common.Signature(), args, true, st, k)
+	// closed world for function values: the targets are the repository functions of that signature whose
+	// value is taken somewhere (library function values are assumed not to call the ledger)
+	gs := &ghostSet{set: map[string]bool{}}
+	for _, t := range vc.prog.funcValuesOfType(common.Value.Type()) {
+		gs.add(vc.prog.mayModifyGhosts(t))
+	}
+	if gs.all {
+		vc.note("dynamic call of an unknown function value at %s: havoc of the heap and all ghost state", ex.where())
+	} else {
+		vc.note("dynamic call of an unknown function value at %s: havoc of the heap and of the ghost state its possible targets can reach: %v", ex.where(), sortedKeys(gs.set))
+	}
+	ex.havocAllG(st, gs)
+	k(st, ex.resultVal(st, common.Signature(), "res_dynamic"), false)
 }
 
 // closureSpecFor: a parameter of function type may be declared to implement a
@@ -140,6 +151,9 @@ func (ex *Exec) callFunc(fr *Frame, callee *ssa.Function, binds []Val, args []Va
 		m(ex, fr, callee, args, st, k)
 		return
 	}
+	if ex.chiStatic(fr, callee, args, st, k) {
+		return
+	}
 	if pureLib[name] {
 		ex.pureLibCall(name, callee, args, st, k)
 		return
@@ -171,7 +185,7 @@ func (ex *Exec) inline(fr *Frame, callee *ssa.Function, binds []Val, args []Val,
 		ex.vc.usedCon[c.Name] = true
 	}
 	if c != nil && len(c.Requires) > 0 {
-		env := ex.newEnv(st, nil, callee.Pkg.Pkg, nf)
+		env := ex.newEnv(st, nil, fnPkg(callee), nf)
 		ex.bindParams(env, nf)
 		for _, r := range c.Requires {
 			if isImplements(r.Expr) {
@@ -214,7 +228,7 @@ func (ex *Exec) inline(fr *Frame, callee *ssa.Function, binds []Val, args []Val,
 			res = Val{K: VTuple, Tup: rets}
 		}
 		if c != nil && len(c.Updates) > 0 {
-			env := ex.newEnv(st2, nf.oldState, callee.Pkg.Pkg, nf)
+			env := ex.newEnv(st2, nf.oldState, fnPkg(callee), nf)
 			ex.bindParams(env, nf)
 			ex.bindResults(env, callee.Signature, callee, res)
 			ex.applyUpdates(st2, c, env)
@@ -423,6 +437,12 @@ func (ex *Exec) invoke(fr *Frame, site ssa.Instruction, common *ssa.CallCommon, 
 		sig := common.Method.Type().(*types.Signature)
 		ex.applyContract(fr, c, nil, sig, all, site, st, k, name)
 		return
+	}
+	if isChiRouterType(it) {
+		all := append([]Val{recv}, args...)
+		if ex.chiCall(fr, common.Method.Name(), common.Method.Type().(*types.Signature), all, st, k) {
+			return
+		}
 	}
 	// closed-world dispatch for small interfaces declared in the repository
 	if ex.dispatch(fr, site, common, recv, args, st, k) {
